@@ -502,6 +502,48 @@ func huge(o *hx.Opts) []*In {
 	return out
 }
 
+// restart: one stub object registering twice. The first session collects at least one chunk
+// and is then abandoned; the second must deliver exactly the second state.
+func restart(rng *rand.Rand, n int) []*In {
+	type st struct {
+		note   string
+		p1, c1 [][2]int
+		cut    int
+		p2, c2 [][2]int
+	}
+	states := []st{
+		{"12 x 100KB then 8 x 600KB fails after the first chunk; then the large ones are gone", run1(1, tiny), [][2]int{{12, 100 * 1024}, {8, 600 * 1024}}, 0, run1(1, tiny), run1(12, 100*1024)},
+		{"tail of 3 x 2MB cannot be sent; second state split again", run1(4, kb), [][2]int{{30, 200_000}, {3, 2_000_000}}, 0, run1(3, kb), run1(45, 200_000)},
+		{"tail with an oversized container; second state empty", run1(2, tiny), [][2]int{{20, 300_000}, {1, ttrpcLimit + 1000}}, 0, nil, nil},
+		{"cut after 1 chunk; same state again", run1(3, kb), run1(30, 300_000), 1, run1(3, kb), run1(30, 300_000)},
+		{"cut after 2 chunks; smaller single-message state", run1(5, kb), run1(40, 300_000), 2, run1(1, tiny), run1(2, kb)},
+		{"cut after 1 chunk; larger state", run1(2, tiny), run1(20, 400_000), 1, run1(6, kb), run1(60, 300_000)},
+		{"cut after 3 chunks of many small objects", run1(400, kb), run1(2400, 8*kb), 3, run1(100, kb), run1(300, kb)},
+		{"first session completes (no stale data possible); second differs", run1(2, tiny), run1(30, 300_000), 0, run1(1, tiny), run1(10, 300_000)},
+	}
+	var out []*In
+	for i := 0; i < n; i++ {
+		s := states[i%len(states)]
+		if i >= len(states) {
+			// random variant: a split first state cut after 1..3 chunks, an unrelated second state
+			c1 := 50 + rng.Intn(40)
+			s = st{"random cut", run1(rng.Intn(6), kb), run1(c1, 250_000+rng.Intn(200_000)), 1 + rng.Intn(3),
+				run1(rng.Intn(8), kb), run1(rng.Intn(50), []int{tiny, kb, kb100, 300_000}[rng.Intn(4)])}
+		}
+		in := mk("restart", s.note, s.p2, s.c2)
+		in.Kind = "restart"
+		in.First = &FirstIn{Pods: s.p1, Ctrs: s.c1, CutAfter: s.cut}
+		if in.First.Pods == nil {
+			in.First.Pods = [][2]int{}
+		}
+		if i%3 == 1 {
+			in.Updates = 2
+		}
+		out = append(out, in)
+	}
+	return out
+}
+
 // preinstalled: plugins launched by Adaptation.Start and synchronized by its `syncPlugins`.
 func preinstalled(rng *rand.Rand, n int) []*In {
 	states := []struct {
@@ -571,5 +613,6 @@ func generate(o *hx.Opts) []*In {
 	out = append(out, handlers(o.Rand(4))...)
 	out = append(out, unsendable(o.Rand(5))...)
 	out = append(out, preinstalled(o.Rand(6), o.N(16, 80))...)
+	out = append(out, restart(o.Rand(7), o.N(16, 120))...)
 	return out
 }
